@@ -101,6 +101,8 @@ def gen_ft_case(rng, tier, lorch=False, omitted=False, channel=2, win=None, dy_k
     dk, yin = data(rng, xin)
     ok, xout = out_grid(rng, m)
     xmin, xmax, wk = window(rng, xin, win)
+    if lorch and xmax is not None and xmax <= 0:
+        xmax, wk = None, wk + "-nohi"   # Lorch with an upper limit of 0 divides pi by zero: outside every property's domain
     uk, dy = L.uncert(rng, n)
     if dy_kinds and uk not in dy_kinds:
         uk, dy = "pos", [rng.logu(1e-4, 1.0) for _ in range(n)]
